@@ -197,7 +197,9 @@ class Application(object):
         for entry in routes:
             self.add(entry)
 
-        all_mws = _get_all_middlewares(self.routes)
+        # the null route is bound with the application-level middlewares,
+        # so their wsgi_wrappers apply even to an application without routes
+        all_mws = _get_all_middlewares(self.routes + [self._null_route])
         for mw in reversed(all_mws):
             self._dispatch_wsgi = _safe_wrap_wsgi('middleware', mw, self._dispatch_wsgi)
         return
